@@ -73,7 +73,7 @@ Definition w_q_exact (ps : list (Q * Q)) (qo : Q * Z * xreal) : Prop :=
 (* [code] is the verdict code: 0 ok, 1 borderline (some weighted query needed the window) *)
 Definition case_ok (code : Z) (c : c10case) : Prop :=
   let '(sorted, hasw, xs, ws, qs, ist, iv, unm) := c in
-  unm = 1%Z /\ (hasw = true -> length ws = length xs) /\ (sorted = true -> StronglySorted Qle xs) /\
+  unm = 1%Z /\ (if hasw then length ws = length xs else ws = []) /\ (sorted = true -> StronglySorted Qle xs) /\
   match xs with
   | [] => Forall nan_q_ok qs /\ ist = 0%Z /\ iv = XNaN
   | _ => if hasw
@@ -503,7 +503,7 @@ Qed.
 (* ====================================================================== *)
 Lemma check_case_eq sorted hasw xs ws qs ist iv unm :
   check_case (sorted, hasw, xs, ws, qs, ist, iv, unm) =
-  if hasw && negb (length ws =? length xs)%nat then (V_MALFORMED, 0%Z, (-1)%Z, []) else
+  if (if hasw then negb (length ws =? length xs)%nat else negb (length ws =? 0)%nat) then (V_MALFORMED, 0%Z, (-1)%Z, []) else
   if sorted && negb (asc_b xs) then (V_MALFORMED, 0%Z, (-1)%Z, []) else
   let s' := csorted sorted hasw xs ws in
   let ps := cpairs s' in
@@ -534,7 +534,7 @@ Proof.
   destruct c as [[[[[[[sorted hasw] xs] ws] qs] ist] iv] unm]. rewrite check_case_eq. intros H Hv.
   assert (N3 : v <> V_MALFORMED) by (unfold V_MALFORMED; lia).
   assert (N2 : v <> V_MISMATCH) by (unfold V_MISMATCH; lia).
-  destruct (hasw && negb (length ws =? length xs)%nat) eqn:HL; [injection H as <- _ _ _; congruence|].
+  destruct (if hasw then negb (length ws =? length xs)%nat else negb (length ws =? 0)%nat) eqn:HL; [injection H as <- _ _ _; congruence|].
   destruct (sorted && negb (asc_b xs)) eqn:HA; [injection H as <- _ _ _; congruence|].
   cbv zeta in H.
   destruct (run_qs _ _ _ _ _ _ qs 0%Z 0%Z 0%Z) as [[[code tag] pos] diag] eqn:R.
@@ -545,10 +545,12 @@ Proof.
   injection H as <- _ _ _.
   destruct (run_qs_sound _ _ _ _ _ _ _ _ _ _ _ _ _ _ R C2) as [_ F].
   assert (Hl : hasw = true -> length ws = length xs).
-  { intros ->. cbn in HL. apply Bool.negb_false_iff, Nat.eqb_eq in HL. exact HL. }
+  { intros ->. apply Bool.negb_false_iff, Nat.eqb_eq in HL. exact HL. }
+  assert (Hl0 : hasw = false -> ws = []).
+  { intros ->. apply Bool.negb_false_iff, Nat.eqb_eq in HL. destruct ws; [reflexivity|discriminate]. }
   assert (Hs : sorted = true -> StronglySorted Qle xs).
   { intros ->. cbn in HA. apply Bool.negb_false_iff in HA. apply asc_b_sound. exact HA. }
-  unfold case_ok. split; [exact U|]. split; [exact Hl|]. split; [exact Hs|].
+  unfold case_ok. split; [exact U|]. split; [destruct hasw; auto|]. split; [exact Hs|].
   destruct xs as [|x0 xt] eqn:Exs.
   - (* empty sample *)
     assert (Ec : csample sorted hasw [] ws = csample sorted hasw [] [] /\ csorted sorted hasw [] ws = csorted sorted hasw [] []).
